@@ -11,10 +11,12 @@
     modelled in Model/QuotaGate.v; statements (7)-(9) are about it, proofs in
     Proofs/JobOrderGate.v. Statements (10)-(12) are about WHICH jobs a cycle
     collects (InitializeWithJobs; [eligible] / [eligible_of] / [ghost_free] in
-    Model/JobOrderSpec.v), proofs in Proofs/JobOrderCollect.v. *)
+    Model/JobOrderSpec.v), proofs in Proofs/JobOrderCollect.v. Statements (13)-(14)
+    are about PodGroupInfo.LastStartTimestamp ([j_last_start]): the order does not
+    read it; proofs in Proofs/JobOrderLastStart.v. *)
 From Coq Require Import List ZArith Bool Permutation.
 From KaiV Require Import Model.JobOrder Model.JobOrderSpec Model.QuotaGate Model.QuotaGateSpec
-     Proofs.JobOrder Proofs.JobOrderGate Proofs.JobOrderCollect Proofs.JobOrderMonitor.
+     Proofs.JobOrder Proofs.JobOrderGate Proofs.JobOrderCollect Proofs.JobOrderMonitor Proofs.JobOrderLastStart.
 From KaiV Require Run.C16.
 Import ListNotations.
 Open Scope Z_scope.
@@ -452,3 +454,106 @@ Theorem C16_stop_at_first_ghost_refuted :
      <> initialize_stop_at_missing_queue g_qs g_qord (-1) jo_empty (ghost_free g_qs [g_low; g_ghost; g_high]).
 Proof. exact stop_at_first_ghost_refuted_proof. Qed.
 Print Assumptions C16_stop_at_first_ghost_refuted.
+
+(** (13) Last-start stamps. [j_last_start] is PodGroupInfo.LastStartTimestamp, which
+    SetPodGroup restores in every snapshot from the annotation
+    kai.scheduler/last-start-timestamp - also for a workload that was started once,
+    lost all its pods and is pending again. Session.JobOrderFn compares priority,
+    elastic state, CreationTimestamp and UID: for ALL pairs of jobs the order is the
+    same whatever the two stamps are changed to ([set_last_start] changes nothing
+    else). *)
+Theorem C16_order_ignores_last_start :
+  forall a b x y, job_less (set_last_start a x) (set_last_start b y) = job_less a b.
+Proof. exact job_less_ignores_last_start. Qed.
+Print Assumptions C16_order_ignores_last_start.
+
+Theorem C16_set_last_start_changes_nothing_else :
+  forall j x,
+    j_uid (set_last_start j x) = j_uid j /\ j_queue (set_last_start j x) = j_queue j
+    /\ j_prio (set_last_start j x) = j_prio j /\ j_subgroups (set_last_start j x) = j_subgroups j
+    /\ j_ctime (set_last_start j x) = j_ctime j /\ j_shape (set_last_start j x) = j_shape j
+    /\ j_pre (set_last_start j x) = j_pre j /\ j_req (set_last_start j x) = j_req j
+    /\ j_last_start (set_last_start j x) = x.
+Proof. exact set_last_start_only_sets_last_start. Qed.
+Print Assumptions C16_set_last_start_changes_nothing_else.
+
+(** Extensionality of everything that only compares: for ANY element type, order
+    [less] and relabelling [g] under which [less] is invariant, the declarative
+    collection ([d_best]: what a leaf keeps, sorted) and the modelled PriorityQueue
+    (container/heap up/down, bounded Push with indexOfLast + Remove, Pop, Fix) do
+    on relabelled elements exactly what they do on the elements. *)
+Theorem C16_comparison_extensionality :
+  forall (A : Type) (less : A -> A -> bool) (g : A -> A),
+    (forall a b, less (g a) (g b) = less a b) ->
+    (forall d xs, d_best less d (map g xs) = map g (d_best less d xs))
+    /\ (forall d l x, pq_push less d (map g l) (g x) = res_map (map g) (pq_push less d l x))
+    /\ (forall l, pq_pop less (map g l) = res_map (fun r => (option_map g (fst r), map g (snd r))) (pq_pop less l))
+    /\ (forall l i, pq_fix less (map g l) i = res_map (map g) (pq_fix less l i))
+    /\ (forall d xs l, pq_push_all less d (map g l) (map g xs) = res_map (map g) (pq_push_all less d l xs)).
+Proof.
+  exact (fun A less g H => conj (d_best_map less g H) (conj (pq_push_map less g H) (conj (pq_pop_map less g H)
+           (conj (pq_fix_map less g H) (pq_push_all_map less g H))))).
+Qed.
+Print Assumptions C16_comparison_extensionality.
+
+(** Hence the pop sequence of a cycle does not depend on the stamps. [restamp f]
+    gives every job the stamp [f] chooses for it (any function of the job). For
+    every hierarchy, depth and job list (ghosts included): the list leaf queue [q]
+    is specified to hold and to hand out, in order - which by (4), (10) and (11) is
+    what the modelled InitializeWithJobs collects and PopNextJob pops, job by job,
+    for any queue order function - is, on the re-stamped jobs, the re-stamped
+    list: the same workloads (UIDs) in the same order; the same holds for the
+    collection the monitor holds the real pops against. *)
+Theorem C16_collection_ignores_last_start :
+  forall (qs : list qinfo) depth q (f : job -> option Z) jobs,
+    d_best job_less depth (eligible_of qs q (map (restamp f) jobs))
+    = map (restamp f) (d_best job_less depth (eligible_of qs q jobs)).
+Proof. exact collection_ignores_last_start. Qed.
+Print Assumptions C16_collection_ignores_last_start.
+
+Theorem C16_pop_sequence_ignores_last_start :
+  forall (qs : list qinfo) depth (f : job -> option Z) jobs,
+    (forall q, map j_uid (d_best job_less depth (eligible_of qs q (map (restamp f) jobs)))
+               = map j_uid (d_best job_less depth (eligible_of qs q jobs)))
+    /\ (forall q, map j_uid (Run.C16.leaf_get (Run.C16.collect_ideal qs depth (map (restamp f) jobs)) q)
+                  = map j_uid (Run.C16.leaf_get (Run.C16.collect_ideal qs depth jobs) q)).
+Proof. exact pop_sequence_ignores_last_start. Qed.
+Print Assumptions C16_pop_sequence_ignores_last_start.
+
+(** ... and the modelled leaf heap itself (every Push incl. the bounded one, Pop,
+    Fix, and a whole collection of pushes) runs on re-stamped jobs as on the jobs. *)
+Theorem C16_leaf_heap_ignores_last_start :
+  forall f : job -> option Z,
+    (forall d l x, pq_push job_less d (map (restamp f) l) (restamp f x) = res_map (map (restamp f)) (pq_push job_less d l x))
+    /\ (forall l, pq_pop job_less (map (restamp f) l)
+                  = res_map (fun r => (option_map (restamp f) (fst r), map (restamp f) (snd r))) (pq_pop job_less l))
+    /\ (forall l i, pq_fix job_less (map (restamp f) l) i = res_map (map (restamp f)) (pq_fix job_less l i))
+    /\ (forall d xs, pq_push_all job_less d [] (map (restamp f) xs) = res_map (map (restamp f)) (pq_push_all job_less d [] xs)).
+Proof. exact leaf_heap_ignores_last_start. Qed.
+Print Assumptions C16_leaf_heap_ignores_last_start.
+
+(** (14) What happens when the FIFO clause reads "in line since"
+    ([job_less_in_line_since]: the last start, for a job that was started after its
+    creation and holds no active allocated pod; NOT the code, it is the shape of
+    seeded change C16-5). README pair: [r_older] created at 0, started at 1800,
+    pending again; [r_younger] created at 900, never started; same leaf queue,
+    shape, priority, elastic state. The code orders the older one first and a leaf
+    hands it out first; the variant orders the younger one first, a leaf of depth 1
+    keeps only the younger one, and the variant is not invariant under re-stamping
+    ((13) fails for it); on jobs that never started the two orders coincide - which
+    is why a cluster in which workloads are only submitted and started never shows
+    the difference. *)
+Theorem C16_in_line_since_refuted :
+  j_queue r_older = j_queue r_younger /\ j_shape r_older = j_shape r_younger /\ j_prio r_older = j_prio r_younger
+  /\ min_available_state r_older = min_available_state r_younger /\ j_ctime r_older < j_ctime r_younger
+  /\ job_less r_older r_younger = true /\ job_less r_younger r_older = false
+  /\ d_best job_less (-1) [r_younger; r_older] = [r_older; r_younger]
+  /\ pq_push_all job_less (-1) [] [r_younger; r_older] = Ok [r_older; r_younger]
+  /\ job_less_in_line_since r_older r_younger = false /\ job_less_in_line_since r_younger r_older = true
+  /\ d_best job_less_in_line_since (-1) [r_younger; r_older] = [r_younger; r_older]
+  /\ pq_push_all job_less_in_line_since 1 [] [r_younger; r_older] = Ok [r_younger]
+  /\ job_less_in_line_since (set_last_start r_older None) (set_last_start r_younger None) = true
+  /\ (exists a b x y, job_less_in_line_since (set_last_start a x) (set_last_start b y) <> job_less_in_line_since a b)
+  /\ (forall a b, j_last_start a = None -> j_last_start b = None -> job_less_in_line_since a b = job_less a b).
+Proof. exact in_line_since_refuted_proof. Qed.
+Print Assumptions C16_in_line_since_refuted.
